@@ -88,6 +88,14 @@ CHECKS = {
             'negated and invalid embedded public keys, scalars {0,1,n-3..n+1,2^256-1}, SM9 G1/G2 octets, signature S and '
             'ciphertext C1: accept <=> coordinates < p, on curve, finite; private scalar accepted <=> 1 <= d <= n-2.',
             '4/C12', TRUSTED),
+    'C13': ('exploration',
+            'sanitized execution (ASan+UBSan) of every exported sm2_z256 function in the portable-C and ENABLE_SM2_AMD64 '
+            'builds, each output compared with Python-integer / affine reference arithmetic',
+            'Boundary operand set crossed with itself plus seeded random operands, each function only inside its domain; '
+            'equal, opposite, infinite (three encodings) and non-normalised Jacobian points, in-place aliasing; all four '
+            'scalar-multiplication routes on every k in [0,W], [n-W,n+W], [2^256-W,2^256) (W=1024 quick, 8192 thorough), '
+            'every Booth window boundary, every entry of the fixed-base table; ~0.5 M (quick) / ~10 M (thorough) comparisons.',
+            '4/C13', TRUSTED),
     'C14': ('exploration',
             'sanitized execution with an independent strict-DER / PBKDF2 / SM4 reference: round trip with exact '
             'consumption, dry-run length vs bytes written into exactly-sized ASan blocks, accept => re-encodes identically, '
